@@ -3,7 +3,7 @@
 patch=$(realpath "$1"); shift
 cd /verif || exit 2
 if ! git -C /repo diff --quiet; then echo "/repo has uncommitted changes; refusing"; exit 2; fi
-trap 'git -C /repo checkout -- . ; git -C /repo clean -fdq -- pie graph >/dev/null 2>&1' EXIT INT TERM
+trap 'git -C /repo checkout -- . ; git -C /repo clean -fdq -- pie graph >/dev/null 2>&1; (cd /verif/sim && cargo build --release --offline >/dev/null 2>&1)' EXIT INT TERM
 git -C /repo apply "$patch" || { echo "patch does not apply"; exit 2; }
 for p in "$@"; do
   out=$(VERIF_TIER=${VERIF_TIER:-quick} ./check "$p" ${VERIF_TIER:-quick} 2>&1)
